@@ -437,6 +437,13 @@ def run_case(case):
                 cls = type(cls.__name__ + "Delay", (cls,), {"RESTART_DELAY": timedelta(milliseconds=d["ms"])})
             return cls(i, spec)
         actors = [make(i, spec) for i, spec in enumerate(case["actors"])]
+
+        async def heartbeat():
+            # async_solipsism treats a wait of >= 24 h until the next timer as "sleep for ever": keep a timer
+            # at most 6 h away so that restart delays of a day and more can elapse on virtual time
+            while True:
+                await orig_sleep(21600.0)
+        hb = asyncio.create_task(heartbeat())
         t0 = loop.time()
         for op in case["ops"]:
             due = t0 + op[0] / 1000.0
@@ -500,8 +507,11 @@ def run_case(case):
         for a in actors:
             harness_tasks.append(asyncio.create_task(call_op(a.stop)))
         hung = False
-        for _ in range(240):
-            await orig_sleep(1.0)
+        # (a stop() may legitimately wait for a restart delay: a run that turns the cancellation into an Exception
+        #  restarts after ITS actor's delay, which may be days)
+        longest = max([2.0] + [a.RESTART_DELAY.total_seconds() for a in actors])
+        for i in range(240 + 400):
+            await orig_sleep(1.0 if i < 240 else longest / 10.0)
             if all(t.done() for t in harness_tasks):
                 break
         else:
@@ -520,6 +530,7 @@ def run_case(case):
             finals.append([tid, o, t.cancelling()])
         sets = [[a.idx, sorted(tid_of[t] for t in a._tasks), a.is_running] for a in actors]
         log_len = len(log)        # everything after this point is the harness's own teardown, not part of the schedule
+        hb.cancel()
         for t in harness_tasks:
             if not t.done():
                 t.cancel()
@@ -676,7 +687,10 @@ def case_term(case, obs):
 # ----------------------------------------------------------------------------- generation
 LIMITS = [0, 1, 3, None, "default", 0, 1, 3, None, "default", -1, 5]
 DELAYS = [None, None, {"how": "base"}, {"how": "subclass", "ms": 250}, {"how": "subclass", "ms": 2000}, {"how": "subclass", "ms": 7000},
-          {"how": "subclass", "ms": 30000}, {"how": "instance", "ms": 250}, {"how": "instance", "ms": 7000}, {"how": "instance", "ms": 30000}]
+          {"how": "subclass", "ms": 30000}, {"how": "instance", "ms": 250}, {"how": "instance", "ms": 7000}, {"how": "instance", "ms": 30000},
+          # delays of a day and more (virtual time makes them free): 1 d, 36 h, 7 d, 1 d + 0.5 s
+          {"how": "subclass", "ms": 86_400_000}, {"how": "instance", "ms": 129_600_000}, {"how": "subclass", "ms": 604_800_000},
+          {"how": "instance", "ms": 86_400_500}]
 
 
 def with_delay(actor, d):
@@ -791,7 +805,7 @@ def gen_run_case(rng):
                    "on_cancel": [rng.choice(["prop", "ret", "exc"])] if rng.random() < 0.3 else []}
                   for k in range(nruns)]
         actors.append(with_delay({"limit": rng.choice([0, 1, 3, None]), "script": script, "name": name,
-                                  "cls": "A" if classing == "same" else "ABC"[i]}, rng.choice(DELAYS[:7])))
+                                  "cls": "A" if classing == "same" else "ABC"[i]}, rng.choice(DELAYS[:7] + DELAYS[10:12])))
     ops = []
     for i in range(nact):
         if rng.random() < 0.25:
@@ -931,6 +945,15 @@ def boundary_cases():
          "ops": [[0, "start", 0], [50, "stop", 0]], "settle_ms": 500},
         {"actors": [A(None, [{**S([100], "ret"), "spawn": {"via": "tasks", "awaits": [700], "end": "exc", "on_cancel": []}}])],
          "ops": [[0, "start", 0], [10, "wait", 0]], "settle_ms": 1500},
+        # restart delays of a day and more: the `days` part of the timedelta counts
+        {"actors": [{**A(1, [S([100], "exc"), S([100], "ret")]), "delay": {"how": "subclass", "ms": 86_400_000}}],
+         "ops": [[0, "start", 0]], "settle_ms": 86_500_000},
+        {"actors": [{**A(2, [S([100], "exc"), S([100], "exc"), S([100], "ret")]), "delay": {"how": "instance", "ms": 129_600_000}}],
+         "ops": [[0, "start", 0], [43_200_000, "start", 0]], "settle_ms": 260_000_000},
+        {"actors": [{**A(None, [S([100], "exc"), S([100], "ret")]), "delay": {"how": "subclass", "ms": 604_800_000}}],
+         "ops": [[0, "start", 0], [3_600_000, "stop", 0]], "settle_ms": 1000},
+        {"actors": [{**A(None, [S([100], "exc"), S([100], "ret")]), "delay": {"how": "instance", "ms": 86_400_500}}],
+         "ops": [[0, "start", 0], [86_400_400, "wait", 0, {"timeout": 1000}]], "settle_ms": 1000},
         # default restart limit (unbounded)
         {"actors": [A("default", [S([], "exc")] * 6 + [S([], "ret")])], "ops": [[0, "start", 0]], "settle_ms": 15000},
     ]
@@ -1080,3 +1103,227 @@ class ActorStream(Stream):
         if obs["hung"]:
             out.append("hung")
         return sorted(set(out))
+
+
+# ============================================================================= SDK services
+# The SDK's own BackgroundService / Actor subclasses that can be built without a microgrid, under the
+# generic stop oracle: every asyncio task the service spawned (running SDK code) between start() and the
+# end of stop() is done when stop() returns, and is_running is False.
+SERVICES = ["mw", "mw_rs", "resampling_actor", "resampling_actor_sub", "pda", "pv_tracker", "ev_tracker", "data_sourcing"]
+
+
+def run_service_case(case):
+    import warnings
+    from datetime import datetime, timedelta, timezone
+    from types import SimpleNamespace
+    import async_solipsism
+    from frequenz.channels import Broadcast
+    warnings.simplefilter("ignore")
+
+    loop = async_solipsism.EventLoop()
+    kind = case["service"]
+    saved = {}
+
+    def stub_cm(**kw):
+        from frequenz.sdk.microgrid import connection_manager as cm
+        saved.setdefault("cm", getattr(cm, "_CONNECTION_MANAGER", None))
+        cm._CONNECTION_MANAGER = SimpleNamespace(**kw)
+
+    def build():
+        from frequenz.sdk.timeseries import ResamplerConfig
+        feed = None
+        if kind in ("mw", "mw_rs"):
+            from frequenz.sdk.timeseries import MovingWindow
+            ch = Broadcast(name="samples")
+            cfg = ResamplerConfig(resampling_period=timedelta(seconds=1)) if kind == "mw_rs" else None
+            svc = MovingWindow(size=timedelta(seconds=10), resampled_data_recv=ch.new_receiver(),
+                               input_sampling_period=timedelta(seconds=1), resampler_config=cfg)
+            feed = ch.new_sender()
+        elif kind in ("resampling_actor", "resampling_actor_sub"):
+            from frequenz.sdk._internal._channels import ChannelRegistry
+            from frequenz.sdk.microgrid._resampling import ComponentMetricsResamplingActor
+            rr = Broadcast(name="resampling requests")
+            svc = ComponentMetricsResamplingActor(
+                channel_registry=ChannelRegistry(name="verif"), data_sourcing_request_sender=Broadcast(name="ds").new_sender(),
+                resampling_request_receiver=rr.new_receiver(), config=ResamplerConfig(resampling_period=timedelta(seconds=1)))
+            feed = rr.new_sender()
+        elif kind == "pda":
+            from frequenz.client.microgrid import ComponentCategory
+            from frequenz.sdk.microgrid._power_distributing import power_distributing as pd
+
+            class QuietManager:
+                def __init__(self, *a):
+                    pass
+
+                async def start(self):
+                    pass
+
+                async def stop(self):
+                    pass
+            old = pd.BatteryManager
+            pd.BatteryManager = QuietManager
+            try:
+                svc = pd.PowerDistributingActor(
+                    Broadcast(name="rq").new_receiver(), Broadcast(name="rs").new_sender(), Broadcast(name="st").new_sender(),
+                    api_power_request_timeout=timedelta(seconds=5), component_category=ComponentCategory.BATTERY)
+            finally:
+                pd.BatteryManager = old
+        elif kind in ("pv_tracker", "ev_tracker"):
+            stub_cm(component_graph=None, api_client=SimpleNamespace())
+            if kind == "pv_tracker":
+                from frequenz.sdk.timeseries.pv_pool._system_bounds_tracker import PVSystemBoundsTracker as T
+            else:
+                from frequenz.sdk.timeseries.ev_charger_pool._system_bounds_tracker import EVCSystemBoundsTracker as T
+            svc = T({1, 2}, Broadcast(name="status").new_receiver(), Broadcast(name="bounds").new_sender())
+        elif kind == "data_sourcing":
+            stub_cm(component_graph=SimpleNamespace(components=lambda **kw: set()), api_client=SimpleNamespace())
+            from frequenz.sdk._internal._channels import ChannelRegistry
+            from frequenz.sdk.microgrid._data_sourcing import DataSourcingActor
+            svc = DataSourcingActor(Broadcast(name="requests").new_receiver(), ChannelRegistry(name="verif"))
+        else:
+            raise ValueError(kind)
+        return svc, feed
+
+    class BodyError(Exception):
+        pass
+
+    def describe(t):
+        coro = t.get_coro()
+        code = getattr(coro, "cr_code", None) or getattr(coro, "gi_code", None)
+        fn = getattr(code, "co_filename", "") or ""
+        return getattr(coro, "__qualname__", type(coro).__name__), "/frequenz/sdk/" in fn
+
+    async def main():
+        me = asyncio.current_task()
+        before = asyncio.all_tasks()
+        svc, feed = build()
+        seen: set = set()
+
+        def look():
+            seen.update(asyncio.all_tasks() - before - {me})
+
+        async def use(ms):
+            """let the service work: feed samples / subscription requests, let virtual time pass"""
+            from frequenz.quantities import Quantity
+            from frequenz.sdk.timeseries import Sample
+            for i in range(case.get("feed", 0)):
+                if kind in ("mw", "mw_rs") and feed is not None:
+                    await feed.send(Sample(datetime(2024, 1, 1, tzinfo=timezone.utc) + timedelta(seconds=i), Quantity(float(i))))
+                elif kind == "resampling_actor_sub" and feed is not None:
+                    from frequenz.client.microgrid import ComponentMetricId
+                    from frequenz.sdk.microgrid._data_sourcing import ComponentMetricRequest
+                    await feed.send(ComponentMetricRequest("verif", 10 + i, ComponentMetricId.ACTIVE_POWER, None))
+                await asyncio.sleep(0)
+            look()
+            if ms:
+                await asyncio.sleep(ms / 1000.0)
+            look()
+
+        raised = None
+        rounds = []
+        for rnd in range(2 if case.get("restart") else 1):
+            exit_ = case["exit"]
+            try:
+                if exit_ in ("with_ok", "with_raise"):
+                    try:
+                        async with svc:
+                            for _ in range(case.get("starts", 1) - 1):
+                                svc.start()
+                            look()
+                            await use(case.get("run_ms", 0))
+                            if exit_ == "with_raise":
+                                raise BodyError()
+                    except BodyError:
+                        pass
+                else:
+                    for _ in range(case.get("starts", 1)):
+                        svc.start()
+                    look()
+                    await use(case.get("run_ms", 0))
+                    if exit_ == "cancel_wait":
+                        svc.cancel()
+                        try:
+                            await svc.wait()
+                        except BaseExceptionGroup as grp:
+                            _, rest = grp.split(asyncio.CancelledError)
+                            if rest is not None:
+                                raise rest
+                    else:
+                        await svc.stop()
+                        if exit_ == "stop_stop":
+                            await svc.stop()
+            except BaseExceptionGroup as grp:
+                raised = sorted(type(e).__name__ for e in grp.exceptions)
+            look()
+            tasks = sorted(seen, key=lambda t: t.get_name())
+            rounds.append({"is_running": svc.is_running,
+                           "tasks": [[describe(t)[0], describe(t)[1], t.done(), t in svc._tasks] for t in tasks]})
+        for t in asyncio.all_tasks() - before - {me}:
+            t.cancel()
+        await asyncio.sleep(0)
+        await asyncio.sleep(0)
+        return {"rounds": rounds, "raised": raised}
+
+    asyncio.set_event_loop(loop)
+    try:
+        return loop.run_until_complete(main())
+    finally:
+        if "cm" in saved:
+            from frequenz.sdk.microgrid import connection_manager as cm
+            cm._CONNECTION_MANAGER = saved["cm"]
+        asyncio.set_event_loop(None)
+        loop.close()
+
+
+def gen_service_case(rng):
+    return {"service": rng.choice(SERVICES), "starts": rng.choice([1, 1, 1, 2]), "run_ms": rng.choice([0, 0, 500, 2500]),
+            "feed": rng.choice([0, 1, 3]), "exit": rng.choice(["stop", "stop", "with_ok", "with_raise", "stop_stop"]),
+            "restart": rng.random() < 0.25}
+
+
+def service_boundary_cases():
+    out = []
+    for kind in SERVICES:
+        for exit_ in ("stop", "with_raise", "with_ok"):
+            out.append({"service": kind, "starts": 1, "run_ms": 2500, "feed": 2, "exit": exit_, "restart": False})
+        out.append({"service": kind, "starts": 2, "run_ms": 0, "feed": 1, "exit": "stop", "restart": True})
+    return out
+
+
+class ServiceStream(Stream):
+    """SDK services under the generic stop oracle (no Coq twin: the model of stop() is exercised by the lifecycle stream)."""
+    name = "services"
+
+    def gen(self, rng, tier):
+        yield from service_boundary_cases()
+        for _ in range(120 if tier == "quick" else 1500):
+            yield gen_service_case(rng)
+
+    def run_impl(self, case):
+        return run_service_case(case)
+
+    def to_coq(self, case, obs):
+        return None
+
+    def shrink(self, case):
+        if case.get("restart"):
+            yield {**case, "restart": False}
+        if case.get("starts", 1) > 1:
+            yield {**case, "starts": 1}
+        if case.get("feed"):
+            yield {**case, "feed": case["feed"] - 1}
+        if case.get("run_ms"):
+            yield {**case, "run_ms": 0}
+        if case["exit"] != "stop":
+            yield {**case, "exit": "stop"}
+
+    def key(self, case, obs):
+        return json.dumps({k: v for k, v in case.items() if k != "debug_log"}, sort_keys=True)
+
+    def labels(self, case, obs):
+        out = [f"service={case['service']}", f"exit={case['exit']}", f"starts={case.get('starts', 1)}"]
+        if case.get("restart"):
+            out.append("stopped_and_started_again")
+        n = sum(1 for t in obs["rounds"][-1]["tasks"] if t[1])
+        out.append(f"sdk_tasks_spawned={min(n, 6)}")
+        return out
